@@ -371,6 +371,11 @@ impl<'a> Tr<'a> {
             if fname == "try_from" && args.len() == 1 {
                 let v = self.pure(args[0], env, None)?;
                 return match v.ty {
+                    Ty::Int(Some(_)) if t == IntTy::Usize => {
+                        // `usize::try_from(x)`: the bound is the width of usize
+                        self.usize_w.set(true);
+                        Ok(Val { s: format!("(Casts.try_from_usize {})", v.s), ty: Ty::Result(Box::new(Ty::int(t)), Box::new(Ty::Unit)) })
+                    }
                     Ty::Int(Some(_)) => Ok(Val { s: format!("(Casts.try_from_range {} {} {})", lit(t.min_val()), lit(t.max_val()), v.s), ty: Ty::Result(Box::new(Ty::int(t)), Box::new(Ty::Unit)) }),
                     _ => Err(unsupported(at, &format!("`{}::try_from` on {}", tname, v.ty.show()))),
                 };
@@ -856,7 +861,12 @@ impl<'a> Tr<'a> {
                     (IntTy::U32, IntTy::I32) => format!("(Prelude.sat_u32_to_i32 {})", recv.s),
                     (IntTy::I32, IntTy::U32) => format!("(Prelude.sat_i32_to_u32 {})", recv.s),
                     (f, t) if f == t => recv.s.clone(),
-                    (_, t) => format!("(Casts.sat_as_{} {})", t.name(), recv.s),
+                    (_, t) => {
+                        if t == IntTy::Usize {
+                            self.usize_w.set(true);
+                        }
+                        format!("(Casts.sat_as_{} {})", t.name(), recv.s)
+                    }
                 };
                 Ok(Val { s, ty: to })
             }
